@@ -358,11 +358,63 @@ def t07_sent(run, fx):
         run.anchor_missing(rule, "a computed FDSelect::Format3 literal")
 
 
+def t07_hmtx(run, fx):
+    rule = "T07-HMTX"
+    run.rule(rule, "hmtx: glyph g has its own long metric iff g < numberOfHMetrics; every other glyph takes the last advance and "
+                   "leftSideBearings[g - numberOfHMetrics] (OpenType hmtx). Each read of left_side_bearings is indexed by g - n and guarded by "
+                   "exactly g >= n (the false side of g < n, or the true side of g >= n) - not g > n, which leaves g == n with the wrong bearing")
+    import guards
+    n = 0
+    for b in fx.bodies:
+        if b.exp:
+            continue
+        prov = None
+        for bi, t in b.calls():
+            p = t["callee"].get("path") or ""
+            if not p.endswith(("::read_item", "::get_item")):
+                continue
+            prov = prov or sym.Prov(b)
+            recv = prov.op(t["args"][0])
+            if not any(x[0] == "field" and x[2] == "left_side_bearings" for x in sym.walk(recv)):
+                continue
+            idx = sym.strip(prov.op(t["args"][1]))
+            if not (idx[0] == "bin" and idx[1] == "Sub"):
+                continue      # e.g. an index checked by check_index: only the g - n form is of interest
+            n += 1
+            g, k = sym.norm(sym.strip(idx[2])), sym.norm(sym.strip(idx[3]))
+            ok = False
+            strict = False
+            for tb, fb_, op, x, y, sw in guards.branch_conditions(b, prov):
+                xs, ys = sym.norm(sym.strip(x)), sym.norm(sym.strip(y))
+                for blk, o in ((tb, op), (fb_, guards.CMP_NEG[op])):
+                    if blk is None or not b.dominates(blk, bi):
+                        continue
+                    rel = None
+                    if xs == g and ys == k:
+                        rel = o
+                    elif xs == k and ys == g:
+                        rel = guards.CMP_FLIP[o]
+                    if rel == "Ge":
+                        ok = True
+                    elif rel == "Gt":
+                        strict = True
+            where = b.root.split("::")[-1]
+            if ok and not strict:
+                run.ok(rule, "%s: left_side_bearings[g - n] under g >= n" % where)
+            else:
+                run.fail(rule, "hmtx-boundary:%s" % b.root, "%s reads left_side_bearings[g - n] under %s: the glyph whose id equals numberOfHMetrics gets the "
+                         "bearing of the last long metric instead of leftSideBearings[0]" % (b.path, "g > n" if strict else "no g >= n test on the same values"), b.loc(t))
+    if n < 1:
+        run.anchor_missing(rule, "left_side_bearings[g - n] reads (found %d)" % n)
+
+
 def check(run, fx, tier, floors=True):
     if floors or any(callee_is(t, "cff::subset::rebuild_local_subr_indices") for b in fx.bodies for _, t in b.calls()):
         t07_subr(run, fx)
         t07_bias(run, fx)
         t07_sent(run, fx)
+    if floors or fx.body("subset::create_hmtx_table") is not None:
+        t07_hmtx(run, fx)
     t07_id(run, fx, floors)
     t07_map(run, fx)
     if floors or fx.body("tables::glyf::GlyfRecord::<'a>::is_composite") is not None:
